@@ -13,6 +13,7 @@ import (
 	"time"
 
 	"github.com/gnolang/gno/gno.land/pkg/sdk/vm"
+	"github.com/gnolang/gno/gnovm/pkg/gnolang"
 	"github.com/gnolang/gno/tm2/pkg/crypto"
 	"github.com/gnolang/gno/tm2/pkg/sdk/bank"
 	"github.com/gnolang/gno/tm2/pkg/std"
@@ -58,6 +59,20 @@ func BurnN(cur realm, n int) {
 }
 func Get(name string) int { return get(name) }
 `
+
+const privPath = "gno.land/r/verif/priv"
+
+func privSrc(v int64) string {
+	return fmt.Sprintf("package priv\n\nfunc Version() int { return %d }\n", v)
+}
+
+func privMsg(creator crypto.Address, v int64) vm.MsgAddPackage {
+	files := []*std.MemFile{
+		{Name: "gnomod.toml", Body: strings.TrimSpace(gnolang.GenGnoModLatest(privPath)) + "\nprivate = true\n"},
+		{Name: "priv.gno", Body: privSrc(v)},
+	}
+	return vm.NewMsgAddPackage(creator, privPath, files)
+}
 
 func probe() {
 	a, b, d := appenv.NewAccount("a"), appenv.NewAccount("b"), appenv.NewAccount("deployer")
@@ -196,6 +211,7 @@ func (w *world) project() map[string]any {
 	for _, n := range []string{"a", "b", "c", "z", "realm", "dep", "coll"} {
 		bal[n] = w.e.Balance(w.addr(n))
 	}
+	bal["dep"] += w.e.Balance(appenv.DepositAddr(privPath)) // "dep" = the storage deposit addresses of both test realms
 	seq := map[string]int64{}
 	for _, n := range []string{"a", "b", "c"} {
 		seq[n] = int64(w.e.Account(w.addr(n)).Seq)
@@ -208,6 +224,12 @@ func (w *world) project() map[string]any {
 		}
 		rv[v] = parseQInt(s)
 	}
+	// the code version of the private realm, observed by CALLING it (the VM's node cache is what a later tx would use)
+	pvs, err := w.e.QEval(privPath, "Version()")
+	if err != nil {
+		mbt.Die("qeval priv: %v", err)
+	}
+	rv["pv"] = parseQInt(pvs)
 	return map[string]any{"bal": bal, "seq": seq, "rv": rv}
 }
 
@@ -230,6 +252,8 @@ func (w *world) buildTx(t *txSpec) std.Tx {
 			msgs = append(msgs, vm.NewMsgCall(signer.Addr, nil, atomPath, "Burn", nil))
 		case "burnn":
 			msgs = append(msgs, vm.NewMsgCall(signer.Addr, nil, atomPath, "BurnN", []string{fmt.Sprint(m.n)}))
+		case "redeploy":
+			msgs = append(msgs, privMsg(signer.Addr, m.Val))
 		default:
 			panic("kind " + m.Kind)
 		}
@@ -261,7 +285,7 @@ func locOf(log string) string {
 	return "tx"
 }
 
-func isVM(k string) bool { return k == "set" || k == "inc" || k == "setpay" }
+func isVM(k string) bool { return k == "set" || k == "inc" || k == "setpay" || k == "redeploy" }
 
 // block = list of txs delivered in one block; returns false when the scenario must be resynchronised
 func (w *world) runBlock(txs []*txSpec, nextSeq map[string]int64) {
@@ -271,7 +295,7 @@ func (w *world) runBlock(txs []*txSpec, nextSeq map[string]int64) {
 			mbt.Die("reopen: %v", err)
 		}
 	}
-	depBefore := w.e.Balance(w.addr("dep"))
+	depBefore := w.e.Balance(w.addr("dep")) + w.e.Balance(appenv.DepositAddr(privPath))
 	w.e.BeginBlock()
 	type done struct {
 		t *txSpec
@@ -393,6 +417,10 @@ func (w *world) randTx(nextSeq map[string]int64) *txSpec {
 	for k := 0; k < nm; k++ {
 		t.Msgs = append(t.Msgs, w.randMsg(t.Signer))
 	}
+	if t.Signer == "c" && w.rng.Intn(4) == 0 { // the creator re-deploys its private realm (code is state too)
+		t.Msgs[w.rng.Intn(len(t.Msgs))] = msgSpec{Kind: "redeploy", To: "b", Var: "pv", Val: int64(10 + w.rng.Intn(50))}
+		t.GW = 12_000_000
+	}
 	switch p := w.rng.Intn(100); {
 	case p < 8: // gas wanted in the middle of the messages
 		t.GW = int64(900_000 + w.rng.Intn(3_000_000))
@@ -455,11 +483,20 @@ func (w *world) scenario(blocks int) {
 				Msgs: []msgSpec{{Kind: "send", To: "z", Amt: int64(1 + w.rng.Intn(9)), Var: "x"},
 					{Kind: "set", To: "b", Var: "y", Val: int64(1 + w.rng.Intn(60))},
 					{Kind: "burnn", To: "b", Var: "x", n: w.burnIters(g2 - 1_600_000)}}}
+			if w.rng.Intn(2) == 0 {
+				fill.Signer, fill.Seq = "b", nextSeq["b"]
+				victim = &txSpec{Signer: "c", Seq: nextSeq["c"], SigOK: true, Fee: 1000, GW: g2 + 3_000_000,
+					Msgs: []msgSpec{{Kind: "redeploy", To: "b", Var: "pv", Val: int64(10 + w.rng.Intn(50))},
+						{Kind: "burnn", To: "b", Var: "x", n: w.burnIters(g2 - 2_600_000)}}}
+			}
 			if victim.GW > w.maxGas {
 				victim.GW = w.maxGas
 			}
-			after := &txSpec{Signer: "b", Seq: nextSeq["b"], SigOK: true, Fee: 1000, GW: 5_000_000,
+			after := &txSpec{Signer: "a", Seq: nextSeq["a"], SigOK: true, Fee: 1000, GW: 5_000_000,
 				Msgs: []msgSpec{{Kind: "inc", To: "b", Var: "y"}}}
+			if victim.Signer == "a" {
+				after.Signer, after.Seq = "b", nextSeq["b"]
+			}
 			txs = []*txSpec{fill, victim, after}
 		default: // the pre-ante reads exhaust the remaining block gas
 			r := int64(200_000 + w.rng.Intn(900_000))
@@ -497,6 +534,8 @@ func record(f *mbt.Flags) {
 			Balances: map[crypto.Address]int64{accts["a"].Addr: 400_000_000, accts["b"].Addr: 300_000_000, accts["c"].Addr: 500_000_000, accts["deployer"].Addr: 100_000_000},
 			Deployer: accts["deployer"],
 			Pkgs:     []appenv.Pkg{{Path: atomPath, Files: map[string]string{"atom.gno": atomSrc}}},
+			GenesisTx: []std.Tx{{Msgs: []std.Msg{privMsg(accts["c"].Addr, 11)},
+				Fee: std.Fee{GasWanted: mg, GasFee: std.Coin{Denom: "ugnot", Amount: 1_000_000}}, Signatures: []std.Signature{{}}}},
 		})
 		if err != nil {
 			mbt.Die("new: %v", err)
